@@ -281,7 +281,7 @@ def shard(ctx):
         run_real(ctx, iso3, options, "c18_%d_%d" % (ctx.shard, ctx.evaluations))
     # the hand-offs only exist when feed or biofuel are demanded: half of the runs are drawn with a schedule that demands them
     from checks.c03 import strategy as feeding_strategy
-    drive(ctx, st.one_of(case_strategy(), feeding_strategy()), body, 40 if thorough else 5, shrink=False, tag="runs")
+    drive(ctx, st.one_of(case_strategy(), feeding_strategy()), body, 40 if thorough else 8, shrink=False, tag="runs")
     # the extreme rows of the input table (population-dependent branches sit there), feed continued so that every hand-off is exercised
     model.run_fixed(ctx, model.extreme_cases(shutoff="continued") + model.extreme_cases(),
                     lambda iso, o, k: (ctx.count(), run_real(ctx, iso, o, "c18x_%s_%d" % (iso, k))))
